@@ -20,13 +20,13 @@ KINDS_Q = ['json', 'generator', 'dir', 'continues']
 KINDS_ALL = ['json', 'json_list', 'numpy', 'pandas', 'series', 'generator', 'generator_lazy', 'list_of_numpy', 'dir', 'continues']
 
 
-def world(kind):
+def world(kind, style='registry'):
     P, bc = families.P, families.by_class
     return {
-        'name': f'crash-{kind}',
+        'name': f'crash-{kind}-{style}',
         'tasks': {
-            'U': {'params': [P('pu', default=3)], 'inputs': [], 'data': 'json'},
-            'T': {'params': [P('pt', default='v')], 'inputs': [bc('U')], 'data': kind},
+            'U': {'params': [P('pu', default=3)], 'inputs': [], 'data': 'json', 'run': style},
+            'T': {'params': [P('pt', default='v')], 'inputs': [bc('U')], 'data': kind, 'run': style},
         },
         'configs': {'root': {'medium': 'json', 'tasks': ['U', 'T'], 'values': {}}},
         'root': 'root',
@@ -37,19 +37,19 @@ def world(kind):
 _W = {}
 
 
-def get_world(kind):
-    k = kind  # forked workers inherit the parent's worlds (same module name => byte-identical run info)
+def get_world(kind, style='registry'):
+    k = (kind, style)  # forked workers inherit the parent's worlds (same module name => byte-identical run info)
     if k not in _W:
-        _W[k] = worlds.World(world(kind), scratch.fresh('c05w'))
+        _W[k] = worlds.World(world(kind, style), scratch.fresh('c05w'))
     return _W[k]
 
 
 class Scenario:
     """one execution: prepare store, run the target request under the interposer, hand the store to recovery"""
 
-    def __init__(self, kind, forced):
+    def __init__(self, kind, forced, style='registry'):
         self.kind, self.forced = kind, forced
-        self.w = get_world(kind)
+        self.w = get_world(kind, style)
         self.w.rt.reset()
         self.base = scratch.fresh('c05d')
         self.model = refmodel.Model(worlds.apply_variant(self.w.desc, 'v0'), self.w.modname)
@@ -133,11 +133,11 @@ def torn_points(n):
     return sorted({1, n // 2, n - 1})
 
 
-def _record(kind, forced):
+def _record(kind, forced, buffered=False):
     sc = Scenario(kind, forced)
     try:
         ch = sc.prepare()
-        fs = fsops.FS(sc.base, snapshots=True)
+        fs = fsops.FS(sc.base, snapshots=True, buffered=buffered)
         r = sc.target(ch, fs)
         if r != 'ok':
             raise HarnessError(f'recording run of {kind}/{forced} did not succeed: {r}')
@@ -155,7 +155,7 @@ def _crash_job(args):
     import tcv
 
     tcv.quiet_library()
-    kind, forced, lo, hi, ops, snaps = args
+    kind, forced, lo, hi, ops, snaps, buffered = args
     res = Result()
     for k in range(lo, hi):
         variants = [None]
@@ -165,7 +165,7 @@ def _crash_job(args):
             sc = Scenario(kind, forced)
             try:
                 ch = sc.prepare()
-                fs = fsops.FS(sc.base, crash_at=k, torn=torn)
+                fs = fsops.FS(sc.base, crash_at=k, torn=torn, buffered=buffered)
                 r = sc.target(ch, fs)
                 res.add('evaluations')
                 res.add('transitions', k + 1)
@@ -180,13 +180,13 @@ def _crash_job(args):
                     res.harness_errors.append(f'{kind}/{forced}: tree after crash at op {k} {ops[k]} differs from the recorded pre-operation tree: some I/O bypasses the interposer')
                     continue
                 opdesc = f'{ops[k][0]} {_short(ops[k][1])}' + (f' torn after {torn}/{ops[k][2]}' if torn else '')
-                label = f'{kind}, {"forced recomputation" if forced else "first computation"}, process dies before op {k} ({opdesc})'
+                label = f'{kind}, {"forced recomputation" if forced else "first computation"}, {"buffered" if buffered else "write-through"} files, process dies before op {k} ({opdesc})'
                 bad = sc.recover(label)
                 if bad:
                     res.add('crash_states_violating')
                 for kind_v, msg in bad:
                     res.violations.append(Violation(f'crash {kind}/{"forced" if forced else "first"}: {kind_v} [{_opclass(ops, k)}]', msg,
-                                                    {'kind': 'crash', 'data': kind, 'forced': forced, 'k': k, 'torn': torn}))
+                                                    {'kind': 'crash', 'data': kind, 'forced': forced, 'k': k, 'torn': torn, 'buffered': buffered}))
             finally:
                 sc.close()
     return res
@@ -284,6 +284,42 @@ def _fault_job(args):
     return res
 
 
+def _upstream_fault_job(args):
+    """the INPUT of the requested task fails (not yet computed, or forced); the request fails; after the cause is gone the
+    same chain must recover"""
+    import tcv
+
+    tcv.quiet_library()
+    kind, style, fault, n_fail = args
+    res = Result()
+    sc = Scenario(kind, False, style)
+    case = {'kind': 'upstream', 'data': kind, 'style': style, 'fault': fault, 'n': n_fail}
+    label = f'{kind} ({style} style), upstream task fails {n_fail}x with {fault}, retry in the same chain'
+    try:
+        sc.w.rt.reset()
+        ch = sc.w.chain('v0', base_dir=sc.base)
+        sc.w.rt.faults['U'] = [fault] * n_fail
+        for i in range(n_fail):
+            res.add('transitions')
+            try:
+                _ = ch['t'].value
+                res.violations.append(Violation(f'fault upstream {kind}: request succeeded although its input failed', f'{label}: attempt {i}', case))
+            except Exception:  # noqa
+                pass
+        try:
+            p = sc.w.decode(ch['t'].value, kind)
+            if p['term'] != sc.model.term('t'):
+                res.violations.append(Violation(f'fault upstream {kind}: wrong value after the input recovered', f'{label}: {p["term"]}', case))
+        except Exception as e:  # noqa
+            res.violations.append(Violation(f'fault upstream {kind}: requesting the value again does not recover after a failed input', f'{label}: {type(e).__name__}: {str(e)[:300]}', case))
+        res.add('evaluations')
+        for kind_v, msg in sc.recover(label):
+            res.violations.append(Violation(f'fault upstream {kind}: {kind_v}', msg, case))
+    finally:
+        sc.close()
+    return res
+
+
 def run(tier, seed):
     import tcv
 
@@ -293,12 +329,12 @@ def run(tier, seed):
     jobs = []
     per = {}
     for kind in kinds:
-        for forced in (False, True):
-            ops, snaps, final = _record(kind, forced)
-            per[f'{kind}/{"forced" if forced else "first"}'] = {'operations': len(ops), 'writes': sum(1 for o in ops if o[0] == 'write')}
+        for forced, buffered in ((False, False), (True, False), (False, True), (True, True)):
+            ops, snaps, final = _record(kind, forced, buffered)
+            per[f'{kind}/{"forced" if forced else "first"}/{"buffered" if buffered else "write-through"}'] = {'operations': len(ops), 'writes': sum(1 for o in ops if o[0] == 'write')}
             step = max(1, len(ops) // 6)
             for lo in range(0, len(ops), step):
-                jobs.append((kind, forced, lo, min(len(ops), lo + step), [list(o) for o in ops], snaps))
+                jobs.append((kind, forced, lo, min(len(ops), lo + step), [list(o) for o in ops], snaps, buffered))
     k = seed % len(jobs)
     jobs = jobs[k:] + jobs[:k]
     for r in pmap(_crash_job, jobs):
@@ -315,7 +351,10 @@ def run(tier, seed):
                     fj.append((kind, forced, seq, same))
     for r in pmap(_fault_job, fj, chunksize=4):
         res.merge(r)
-    res.coverage['fault_sequences'] = len(fj)
+    uj = [(kind, style, fault, n) for kind in kinds for style in ('registry', 'args') for fault in ('raise', 'wrong_type') for n in (1, 2)]
+    for r in pmap(_upstream_fault_job, uj, chunksize=4):
+        res.merge(r)
+    res.coverage['fault_sequences'] = len(fj) + len(uj)
     res.coverage['states'] = res.coverage['crash_states'] + len(fj)
     res.coverage['distinct_nontrivial'] = res.coverage['crash_states']
     res.coverage['traces_validated_against_impl'] = res.coverage['evaluations']
@@ -323,7 +362,7 @@ def run(tier, seed):
     res.coverage['rule'] = ('per (data class, first|forced): every operation of the recorded compute+save path as a crash point (process death before it) + every proper prefix of every write '
                             '(all prefixes for payloads <= 64 units, else 1, n/2, n-1), each re-executed on the real code and handed to the real recovery path; tree-digest conformance '
                             'check per crash point; fault sequences of length 1 (and 2) x same/new chain; distinct_nontrivial = crash states')
-    res.sample({'scenario': 'json/first', 'operations': per.get('json/first')})
+    res.sample({'scenario': 'json/first/write-through', 'operations': per.get('json/first/write-through')})
     res.assumptions += ['crash = process death (no power loss / reordering of unsynced blocks; the library never syncs)', 'h5py and figure output are not covered (C-level I/O)']
     return res
 
@@ -333,7 +372,9 @@ def replay(case):
 
     tcv.quiet_library()
     if case['kind'] == 'crash':
-        ops, snaps, final = _record(case['data'], case['forced'])
-        r = _crash_job((case['data'], case['forced'], case['k'], case['k'] + 1, [list(o) for o in ops], snaps))
+        ops, snaps, final = _record(case['data'], case['forced'], case.get('buffered', False))
+        r = _crash_job((case['data'], case['forced'], case['k'], case['k'] + 1, [list(o) for o in ops], snaps, case.get('buffered', False)))
         return [v for v in r.violations if v.case['torn'] == case['torn']]
+    if case['kind'] == 'upstream':
+        return _upstream_fault_job((case['data'], case['style'], case['fault'], case['n'])).violations
     return _fault_job((case['data'], case['forced'], tuple(case['seq']), case['same_chain'])).violations
